@@ -41,8 +41,14 @@ ASSUMPTIONS = [
     'subqueries scan the same table as the outer query (so the check is independent of DESIGN 7 D2)',
     'statements outside the model language (FROM OPEN/CLOSE/CLEAR, ORDER BY/DISTINCT/LIMIT, PIVOT BY, HAVING, BALANCES, '
     'JOURNAL, FROM-subqueries, #entries/#accounts) are run under driven schedules and compared with their serial '
-    'results only (10 fixed scenario pairs + 3 generated families x 2 topologies); the statement-model theorems do '
+    'results only (10 fixed scenario pairs + 4 generated families x 2 topologies); the statement-model theorems do '
     'not speak about them',
+    'first-scan-of-typed-table (generated family, impl-only, oracle = serial execution on ANOTHER fresh connection): '
+    'for each of #prices #transactions #balances #notes #events #documents, 2-3 statements over that table (row scan '
+    'with vyield over year/month/day of the date in a target or in WHERE, plain scan, aggregate) on a FRESH shared '
+    'connection per schedule, so the first-ever scans of the table object are the threaded statements; ALL '
+    'interleavings (3-6 directives per table, <= 252 per case); the tables of other sources (user tables, CSV) and '
+    'ledgers with more rows are not exercised',
     'generated families (impl-only, oracle = serial execution; the serial results on one shared connection must also '
     'equal those on separate connections): same-text = 2-3 threads execute the IDENTICAL statement given as a str '
     'without parameters (or as one parsed object) with yield points between the aggregate values of a finalised '
@@ -61,8 +67,10 @@ ASSUMPTIONS = [
     'found there)',
     'the inventory sees per-connection state only as attributes of the Connection object (fingerprint and size after '
     'every workload statement) and class-level containers only when the workload changes them or an instance method '
-    'writes them through self (static AST scan); state hidden in closures, C extensions or objects reachable only '
-    'from cursors is not enumerated',
+    'writes them through self (static AST scan); the attributes of every table object of a connection are '
+    'fingerprinted (2 levels deep) before the first-ever scan of each table, while that scan is suspended in its first '
+    '3 rows (inside vyield / between iterator steps) and after it; state hidden in closures, C extensions or objects '
+    'reachable only from cursors is not enumerated',
     'Connection.tables, ledger entries and options are only read by queries (checked by the dynamic diff of the '
     'module/class level state; per-connection objects are fingerprinted in the workload as well)',
     'memo tables internal to CPython/stdlib (functools.singledispatch dispatch cache, re pattern cache, decimal '
@@ -120,6 +128,10 @@ def _canon(v):
 
 
 def _hook(x):
+    probe = getattr(S, 'probe', None)
+    if probe is not None:
+        # inventory (suspended-scan probe): the scan of the running statement is suspended in this row right now
+        probe()
     tid = S.slots.get(threading.get_ident())
     if tid is None:
         return x
@@ -296,11 +308,40 @@ LEDGER_META = '''
 '''
 
 
+TYPED_TABLES = ['prices', 'transactions', 'balances', 'notes', 'events', 'documents']
+
+
+def typed_ledger_text(n):
+    """n directives of EVERY directive type that has a typed table (#prices #transactions #balances #notes #events
+    #documents), all with different dates (year, month and day depend on the row)"""
+    lines = ['2018-01-01 open Assets:A', '2018-01-01 open Assets:B', '2018-01-01 open Income:C', '2018-01-01 commodity USD']
+    bal = 0
+    for k in range(n):
+        y, m = 2019 + k // 2, 1 + k      # increasing dates: the balance assertions hold
+        bal -= 10 * (k + 1)
+        lines += [f'{y}-{m:02d}-02 price HOOL {100 + 10 * k} USD',
+                  f'{y}-{m:02d}-05 * "t{k}"', f'  Assets:A  {-10 * (k + 1)} USD', f'  {ACCOUNTS[1 + k % 2]}  {10 * (k + 1)} USD',
+                  f'{y}-{m:02d}-06 balance Assets:A {bal} USD',
+                  f'{y}-{m:02d}-08 note {ACCOUNTS[k % 3]} "n{k}"',
+                  f'{y}-{m:02d}-11 event "{["location", "employer"][k % 2]}" "v{k}"',
+                  f'{y}-{m:02d}-14 document {ACCOUNTS[k % 2]} "/nonexistent/d{k}.pdf"']
+    return '\n'.join(lines) + '\n'
+
+
+def is_typed(led):
+    return isinstance(led, str) and led.startswith('typed')
+
+
 def connection(txs, fresh=False):
-    """txs: a transaction list (see ledger_text) or the string 'meta' (LEDGER_META). fresh: load the ledger
-    anew, so that nothing (entries, postings, their meta dicts) is shared with any other connection."""
-    if fresh or txs == 'meta':
-        entries, errors, options = loader.load_string(LEDGER_META if txs == 'meta' else ledger_text(txs))
+    """txs: a transaction list (see ledger_text), the string 'meta' (LEDGER_META) or 'typed<n>' (typed_ledger_text(n)).
+    fresh: load the ledger anew, so that nothing (entries, postings, their meta dicts) is shared with any other
+    connection."""
+    if fresh or isinstance(txs, str):
+        entries, errors, options = loader.load_string(
+            LEDGER_META if txs == 'meta' else typed_ledger_text(int(txs[5:])) if is_typed(txs) else ledger_text(txs))
+        if is_typed(txs):
+            # the document files do not exist (the loader says so and keeps the directives)
+            errors = [e for e in errors if type(e).__name__ != 'DocumentError']
         if errors:
             raise HarnessError(f'ledger errors: {errors}')
     else:
@@ -1373,9 +1414,75 @@ def _ph_coverage(acc, texts, params, info):
                                'shape': info['shape']})
 
 
-def family_scenarios(rng, n_same, n_fs, n_ph=0):
+#   first-scan-of-typed-table ("on one shared connection", "table objects" of why_tests_cant): the table objects of a
+#                connection are shared by every statement executed on it.  For every typed table (#prices,
+#                #transactions, #balances, #notes, #events, #documents) 2-3 statements over THAT table are executed on a
+#                FRESH shared connection per schedule, so that the first-ever scans of the table object are the threaded
+#                statements themselves (the serial reference runs on another fresh connection): a scan that starts
+#                while the first one is suspended in a row (vyield over a row-dependent int: year/month/day of the
+#                directive's date) must see the whole table.  ALL interleavings (<= 252 per case) in every tier.
+FS_INT = ['year(date)', 'month(date)', 'day(date)', 'year(date) - 2000', 'month(date) + day(date)']
+FS_SHAPES = ['row-yield-scan/plain-scan', 'row-yield-scan/row-yield-scan', 'row-yield-scan/aggregate', '3-threads/one-row-yield-scan']
+
+
+def _typed_columns(name):
+    """the columns of a typed table that print the same in every process: no meta (file names), no sets"""
+    cls = next(c for c in impl.bq_beancount.TABLES if getattr(c, 'name', None) == name)
+    return [c for c, col in cls.columns.items() if c != 'meta' and getattr(col.dtype, '__name__', '') != 'frozenset']
+
+
+def gen_firstscan(rng, i):
+    """-> (name, texts, ledger, raw, info)"""
+    table = TYPED_TABLES[i % len(TYPED_TABLES)]
+    shape = (i + i // len(TYPED_TABLES)) % len(FS_SHAPES)
+    cols = _typed_columns(table)
+    nrows = rng.choice([4, 5, 6]) if shape in (0, 3) else 3 if shape == 1 else rng.choice([3, 4])
+
+    def where():
+        return rng.choice(['', '', f' WHERE year(date) >= {rng.choice([2019, 2020])}', f' WHERE month(date) <= {rng.randint(2, nrows)}',
+                           " WHERE date > 2019-01-31"])
+
+    def order():
+        return rng.choice(['', '', ' ORDER BY date DESC', ' ORDER BY date'])
+
+    def scan(yields):
+        ts = rng.sample(cols, rng.randint(1, min(3, len(cols))))
+        w = where()
+        if yields:
+            y = f'vyield({rng.choice(FS_INT)})'
+            if rng.random() < 0.25:
+                # the yield point in the WHERE clause (evaluated for every row of the table)
+                w = f' WHERE {y} > 0'
+            else:
+                ts.insert(rng.randint(0, len(ts)), y + ' AS g')
+        return 'SELECT ' + ', '.join(ts) + f' FROM #{table}{w}{order()}'
+
+    def aggregate(yields):
+        arg = rng.choice(FS_INT)
+        aggs = rng.sample(['count(*)', f'sum({arg})', 'max(date)', 'min(date)', f'last({arg})', f'count({rng.choice(cols)})'], rng.randint(1, 3))
+        if yields:
+            aggs.append(f'{rng.choice(["sum", "max", "count"])}(vyield({rng.choice(FS_INT)}))')
+        key = rng.choice(['', '', 'year(date)'])
+        return 'SELECT ' + (key + ' AS k, ' if key else '') + ', '.join(aggs) + f' FROM #{table}{where()}' + (' GROUP BY 1' if key else '')
+
+    if shape == 0:
+        texts = [scan(True), scan(False)]
+    elif shape == 1:
+        texts = [scan(True), scan(True)]
+    elif shape == 2:
+        texts = [scan(True), aggregate(nrows == 3 and rng.random() < 0.5)]
+    else:
+        texts = [scan(True), scan(False), aggregate(False)]
+    if rng.random() < 0.5:
+        texts.reverse()
+    return (f'first-scan-of-typed-table{i}', texts, f'typed{nrows}', i % 3 == 2,
+            {'family': 'first-scan-of-typed-table', 'shape': f'#{table}:' + FS_SHAPES[shape], 'threads': len(texts),
+             'all_interleavings': True, 'table': table, 'rows_per_typed_table': nrows})
+
+
+def family_scenarios(rng, n_same, n_fs, n_ph=0, n_first=0):
     return [gen_same_text(rng, i) for i in range(n_same)] + [gen_fromsub(rng, i) for i in range(n_fs)] + \
-        [gen_phcollide(rng, i) for i in range(n_ph)]
+        [gen_phcollide(rng, i) for i in range(n_ph)] + [gen_firstscan(rng, i) for i in range(n_first)]
 
 
 def _n_interleavings(segs):
@@ -1406,7 +1513,13 @@ def check_impl_only(rng, cap, families=(), targeted=False):
                'colliding_offsets_with_different_ordinals_per_scenario': collections.Counter(),
                'colliding_ordinal_pairs': collections.Counter(), 'alignment_hist': collections.Counter(),
                'compile_time_yield_hist': collections.Counter(), 'collisions_confirmed_by_parseinfo_pos': 0,
-               'collisions_not_confirmed_by_parseinfo_pos': 0, 'all_interleavings_cases': 0, 'samples': []}}
+               'collisions_not_confirmed_by_parseinfo_pos': 0, 'all_interleavings_cases': 0, 'samples': []},
+           'first_scan_of_typed_table': {
+               'rule': 'a FRESH shared connection per schedule: the first-ever scans of the typed table object are the '
+                       'threaded statements; serial reference on another fresh connection',
+               'all_interleavings_cases': 0, 'sampled_cases': 0, 'table_hist': collections.Counter(),
+               'rows_per_typed_table': collections.Counter(), 'interleavings_per_case': collections.Counter(),
+               'yield_points_per_statement': collections.Counter(), 'samples': []}}
     scen = [(n, t, 'meta', False, None) for n, t in IMPL_ONLY_META] + [(n, t, L_IO, False, None) for n, t in IMPL_ONLY]
     scen += list(families)
     sigs = set()
@@ -1436,7 +1549,17 @@ def check_impl_only(rng, cap, families=(), targeted=False):
             elif info.get('all_interleavings'):
                 # few (compile-time) yield points per statement: every interleaving, in every tier
                 exhaustive = _n_interleavings(segs) <= 252
-                fam['placeholder_offset_collision']['all_interleavings_cases'] += 1 if exhaustive else 0
+                if info['family'] == 'placeholder-offset-collision':
+                    fam['placeholder_offset_collision']['all_interleavings_cases'] += 1 if exhaustive else 0
+                elif info['family'] == 'first-scan-of-typed-table':
+                    fs = fam['first_scan_of_typed_table']
+                    fs['all_interleavings_cases' if exhaustive else 'sampled_cases'] += 1
+                    fs['table_hist'][info['table'] + '/' + topo] += 1
+                    fs['rows_per_typed_table'][info['rows_per_typed_table']] += 1
+                    fs['interleavings_per_case'][_n_interleavings(segs)] += 1
+                    fs['yield_points_per_statement'].update(k - 1 for k in segs)
+                    if topo == 'shared-connection' and len(fs['samples']) < 8:
+                        fs['samples'].append({'texts': texts, 'ledger': led, 'shape': info['shape'], 'segments': segs})
             else:
                 exhaustive = _n_interleavings(segs) <= 252 and (cap >= 3432 or targeted)
             if exhaustive:
@@ -1614,12 +1737,12 @@ def run(tier, rng):
         stats3, v = check_cases(head, lambda c, segs: all_interleavings(segs)[0], 'c20c')
         violations += v
     # generated families outside the model language; a shared cell in the inventory triggers the targeted search
-    fams = family_scenarios(rng, 8 if quick else 24, 9 if quick else 27, 16 if quick else 64)
+    fams = family_scenarios(rng, 8 if quick else 24, 9 if quick else 27, 16 if quick else 64, 12 if quick else 48)
     io_runs, io_errs, v, fam_cov = check_impl_only(rng, 10 if quick else 3432, fams)
     violations += v
     targeted_runs = 0
     if inv['cells'] and not any(x.kind in ('schedule-dependent-result', 'topology-dependent-serial-result') for x in violations):
-        targeted_runs, _, v, _ = check_impl_only(rng, 40, fams + family_scenarios(rng, 8, 9, 16), targeted=True)
+        targeted_runs, _, v, _ = check_impl_only(rng, 40, fams + family_scenarios(rng, 8, 9, 16, 12), targeted=True)
         violations += v
     fr_runs, fr_bad = free_running(rng, 3 if quick else 30)
     ts_runs, ts_bad = text_stress(1, per_thread=8) if quick else text_stress(4, per_thread=25)
@@ -1735,7 +1858,7 @@ def replay(rec):
         return all(not text_stress(1)[1] for _ in range(3))
     if 'texts' in rec:
         led = rec.get('ledger', L_IO)
-        led = led if led == 'meta' else [(y, d, list(a)) for y, d, a in led]
+        led = led if isinstance(led, str) else [(y, d, list(a)) for y, d, a in led]
         raw = rec.get('raw', False)
         params = rec.get('params')
         if rec['topology'] == 'both':
@@ -1967,6 +2090,10 @@ WORKLOAD = [
     ('SELECT * FROM #postings', None),
     ('SELECT * FROM #entries', None),
     ('SELECT type, count(*) FROM #entries GROUP BY 1', None),
+    # the typed tables (rows: the 'typed3' workload ledger, on which only these statements are run, twice)
+    ('SELECT * FROM #prices', None), ('SELECT date, narration FROM #transactions', None),
+    ('SELECT account, last(amount) FROM #balances GROUP BY 1', None), ('SELECT * FROM #notes', None),
+    ('SELECT type, description FROM #events WHERE year(date) > 2019', None), ('SELECT * FROM #documents', None),
     ('SELECT account, year, sum(number) GROUP BY 1, 2 PIVOT BY 1, 2', None),
     ('SELECT account, sum(position) FROM OPEN ON 2020-01-01 CLOSE ON 2021-01-01 CLEAR GROUP BY 1', None),
     ('SELECT account, sum(number) FROM year = 2020 GROUP BY 1', None),
@@ -1998,17 +2125,104 @@ WORKLOAD = [
 ]
 
 
+def _table_attrs(conn):
+    """{(table name, attribute): (fingerprint, size)} of every table object of the connection"""
+    out = {}
+    for name, t in conn.tables.items():
+        attrs = dict(getattr(t, '__dict__', {}) or {})
+        for sl in getattr(type(t), '__slots__', ()) or ():
+            if isinstance(sl, str) and hasattr(t, sl):
+                attrs[sl] = getattr(t, sl)
+        for a, v in attrs.items():
+            try:
+                size = len(v)
+            except TypeError:
+                size = None
+            out[(name, a)] = (_fp(v, 2, set()), size)
+    return out
+
+
+SCAN_PROBE = {'tables_probed': [], 'scans_through_a_statement': 0, 'scans_by_iteration': 0, 'snapshots_during_suspended_scans': 0,
+              'rows_at_which_suspended': collections.Counter()}
+
+
+def _scan_probe(conn):
+    """DYNAMIC, per table object of a connection that has executed nothing yet: the attributes of EVERY table object of
+    the connection are fingerprinted before the first-ever scan of the table, WHILE that scan is suspended in a row
+    (inside vyield evaluated for the row, for tables with a date/year column; else between two steps of the table's
+    iterator) and after it has completed.  An attribute that appears, changes or grows while a scan is suspended is
+    state that a scan starting at that moment in another thread would read half-written; one that differs after the
+    scan is a per-connection cell as well.  -> names of the changed cells"""
+    found = []
+
+    def note(name, before, now, when):
+        for k in sorted(set(before) | set(now), key=str):
+            if before.get(k) != now.get(k):
+                sizes = (before.get(k, (None, None))[1], now.get(k, (None, None))[1])
+                q = f"<connection>.tables['{k[0]}'].{k[1]}"
+                if not any(x.startswith(q + ' ') for x in found):
+                    found.append(f'{q} (written by a scan of #{name}: differs {when}, size {sizes[0]} -> {sizes[1]})')
+
+    for name, t in list(conn.tables.items()):
+        if not name:
+            continue
+        cols = getattr(t, 'columns', {}) or {}
+        before = _table_attrs(conn)
+        SCAN_PROBE['tables_probed'].append(name) if name not in SCAN_PROBE['tables_probed'] else None
+        text = f'SELECT vyield(year(date)) FROM #{name}' if 'date' in cols else f'SELECT vyield(year) FROM #{name}' if 'year' in cols else None
+        calls = [0]
+        if text is not None:
+            def probe():
+                calls[0] += 1
+                if calls[0] <= 3:
+                    SCAN_PROBE['snapshots_during_suspended_scans'] += 1
+                    SCAN_PROBE['rows_at_which_suspended'][calls[0]] += 1
+                    note(name, before, _table_attrs(conn), f'while the scan is suspended in row {calls[0]}')
+            S.probe = probe
+            try:
+                conn.execute(text).fetchall()
+                SCAN_PROBE['scans_through_a_statement'] += 1
+            except Exception:  # noqa: BLE001
+                text = None
+            finally:
+                S.probe = None
+        if text is None or not calls[0]:
+            # no statement with a yield point per row (or no rows seen by it): step the table's iterator by hand
+            try:
+                it = iter(t)
+                for k in range(3):
+                    next(it)
+                    SCAN_PROBE['snapshots_during_suspended_scans'] += 1
+                    note(name, before, _table_attrs(conn), f'while the iterator is suspended after row {k + 1}')
+                for _ in it:
+                    pass
+            except StopIteration:
+                pass
+            except Exception:  # noqa: BLE001
+                pass
+            SCAN_PROBE['scans_by_iteration'] += 1
+        note(name, before, _table_attrs(conn), 'after the completed scan')
+    return found
+
+
 def _workload():
     txs = [(2020, 2, [5, -5]), (2020, 7, [3, 4, -7]), (2021, 3, [7, -7])]
     n = 0
-    for rep in range(3):
-        conn = connection('meta' if rep == 2 else txs, fresh=True)
+    probed = []
+    for led in ('typed3', txs):
+        # suspended-scan probe, on connections of their own that have executed nothing yet (one name per attribute)
+        conn = connection(led, fresh=True)
+        probed += [x for x in _scan_probe(conn) if not any(y.split(' (')[0] == x.split(' (')[0] for y in probed)]
+        n += len(conn.tables)
+    for rep in range(4):
+        conn = connection('meta' if rep == 2 else 'typed3' if rep == 3 else txs, fresh=True)
         fp0 = _fp(conn.tables, 5, set())
         fp1 = _conn_fp(conn)
         fp2 = ledger_fp(conn)
         attrs = _conn_attrs(conn)
         prev = '(attach)'
-        for q, params in WORKLOAD + [('SELECT 1', None)]:
+        work = WORKLOAD if rep < 3 else [w for w in WORKLOAD if any('#' + t in w[0] for t in TYPED_TABLES)] * 2
+        for q, params in work + [('SELECT 1', None)]:
             n += 1
             # every attribute of the Connection object: a new or changed one is state shared by the threads that
             # share the connection (a per-connection cache); its size is followed over the workload
@@ -2019,9 +2233,9 @@ def _workload():
                     rec['sizes'].append(now.get(a, (None, None))[1])
             attrs = now
             if _conn_fp(conn) != fp1:
-                return n, [f'<connection>.tables after workload statement: {prev[:70]}']
+                return n, probed + [f'<connection>.tables after workload statement: {prev[:70]}']
             if ledger_fp(conn) != fp2:
-                return n, [f'<connection ledger data: entries/postings/meta dicts> after workload statement: {prev[:70]}']
+                return n, probed + [f'<connection ledger data: entries/postings/meta dicts> after workload statement: {prev[:70]}']
             prev = q
             try:
                 cur = conn.cursor()
@@ -2046,8 +2260,8 @@ def _workload():
         except Exception:  # noqa: BLE001
             pass
         if _fp(conn.tables, 5, set()) != fp0:
-            return n, ['<connection>.tables']
-    return n, []
+            return n, probed + ['<connection>.tables']
+    return n, probed
 
 
 CONN_ATTR_CHANGES = {}
@@ -2185,6 +2399,7 @@ def gen_inventory():
     after = _snapshot()
     changed = sorted(k for k in set(before) | set(after) if before.get(k) != after.get(k))
     changed += conn_changed
+    scan_probe_cells = [k for k in conn_changed if k.startswith("<connection>.tables['")]
     conn_attrs = {f'<connection>.{a}': dict(r, grows=len(set(r['sizes'])) > 1) for a, r in sorted(CONN_ATTR_CHANGES.items())}
     changed += [k for k in conn_attrs if k not in changed]
     class_writes = _class_container_writes()
@@ -2216,6 +2431,7 @@ def gen_inventory():
         'astw': compile_writes_statement(),
         'conn_attrs': conn_attrs,
         'class_writes': [f'{q} written by {m}' for q, m in class_writes],
+        'scan_probe_cells': scan_probe_cells,
     }
     return _INV
 
@@ -2238,7 +2454,10 @@ def generate():
    (c) every attribute of the Connection objects used by the workload (fingerprint and size after every statement):
        a new or changed attribute is a per-connection cell, shared by the threads that share the connection;
    (d) static scan of the methods of every class for writes THROUGH self into a mutable container that lives on
-       the class (no __init__ along the MRO gives the instance its own).
+       the class (no __init__ along the MRO gives the instance its own);
+   (e) suspended-scan probe: on connections that have executed nothing yet, the attributes of every table object
+       are fingerprinted before the first-ever scan of each table, while that scan is suspended in a row (inside
+       vyield) and after it: an attribute that appears, changes or grows is a per-connection cell.
    A container that the workload does not change is a registry (read-only after import); a functools cache or
    anything changed by the workload or found by (c)/(d) is a cell shared by threads at query time. *)
 From Coq Require Import ZArith List String.
@@ -2298,5 +2517,7 @@ Definition query_time_shared_cells : list cell_id :=
             'ledger_data_fingerprinted_after_every_workload_statement': True,
             'connection_attributes_changed_by_workload': inv['conn_attrs'],
             'class_level_containers_written_through_self': inv['class_writes'],
+            'suspended_scan_probe': dict(SCAN_PROBE, rows_at_which_suspended=dict(SCAN_PROBE['rows_at_which_suspended']),
+                                         cells_found=inv.get('scan_probe_cells', [])),
         }
     }
